@@ -962,6 +962,9 @@ def bitfield_rule(prog, run, rule):
                     if not (x[0] == "load" and len(x) > 3 and x[2] == "u8"):
                         continue
                     bits = frozenset(sh + k for k in range(8) if (m >> k) & 1 and sh + k < 8)
+                    if any((m >> k) & 1 and sh + k >= 8 for k in range(8)) and bits:
+                        # the mask asks for more bits than the byte has left after the shift: the field is narrower than declared
+                        bits = frozenset()
                     groups.setdefault((x[1], x[3]), {})[(sh, m)] = (bits, mir.loc_of(st))
         for (path, idx), fields in sorted(groups.items(), key=repr):
             items = sorted(fields.items())
@@ -970,7 +973,7 @@ def bitfield_rule(prog, run, rule):
                 others = [(o, ob) for (o, (ob, _l)) in items if o != (sh, m) and ob & bits]
                 key = "bit field %s byte[%s] >>%d &0x%02x" % (mir.norm(f).split("::")[-1], sym.show(idx[0])[:30] if idx else "?", sh, m)
                 run.check(bool(bits) and not others, rule, key, "bits %s, disjoint from the other fields of that byte" % sorted(bits),
-                          ("`(byte >> %d) & 0x%02x` selects no bit of the byte: the field is constant 0 whatever the header says" % (sh, m)) if not bits else
+                          ("`(byte >> %d) & 0x%02x` selects no bit of the byte, or asks for bits the byte does not have after the shift: the field is not what the mask declares" % (sh, m)) if not bits else
                           "`(byte >> %d) & 0x%02x` (bits %s) overlaps %s taken from the same byte: one header bit is read as two fields" % (sh, m, sorted(bits), ["(>>%d &0x%02x)" % o for o, _ in others]), loc)
     run.floor(rule, n, 6, "bit fields extracted from header bytes (VP9)")
 
